@@ -10,7 +10,15 @@ same value and deadline afterwards), Snap.encode_deterministic (same keyspace =>
 lean/RedisGoModel/Cluster/Snapshot.lean, which is TIED byte for byte to memdb/snapshot.go on every run (suite "snapshot": exec-engine
 lines G / L / LB, vlib/snapgen.py: GetSnapshot bytes = Snap.encode, LoadSnapshot = Snap.decode incl. the shape of rebuilt sorted-set
 trees, mutated snapshots).  HYPOTHESIS of the recovery theorems checked on every run: fact F4 (the Ready arm persists before it sends,
-publishes and acknowledges — extracted from raftexample/raft.go).
+publishes and acknowledges — extracted from raftexample/raft.go; F4d: the wal.Save step is not inside any conditional), and its
+BEHAVIOURAL TIE, suite "readyloop" (vlib/readygen.py, harness/readyloop.go, hook H4): ONE REAL RaftNode (id 2 of {1,2,3}; real WAL and
+snapshot directory, real rafthttp transport, real serveChannels goroutine) with the harness playing the two other members through
+RaftNode.Process; every message is observed synchronously inside rc.transport.Send, every delivery on the commit channel by its consumer,
+and at that moment the node's directories are read from disk with a separate read-only open, as a restart would: E1 on-disk term >= the
+message's term; E2 a granted vote (or the node's own candidacy) has (term, votedFor) on disk; E3 an accepted append / snapshot is on disk
+with the leader's terms; E4 every applied proposal is in the on-disk log; E6 a commit index announced as leader that needs the node's own
+copy is on disk; E5 clean restarts and crash images (restart from a copy of the files taken before the stop) keep everything that was
+externalised, the restarted node equals what the oracle read, and no two grants of one term go to different candidates across lives.
 
 NOT PROVED — EXPLORED by fault enumeration on real processes: workloads that cross the snapshot threshold (VERIF_SNAPCOUNT=5/20/50),
 SIGKILL of any subset of nodes at random instants including all at once, restart in random order from the on-disk state, then a read
@@ -18,7 +26,7 @@ of every key through EVERY node: the linearizability check with those final read
 counter, SADD-only set: every acknowledged operation must be reflected on every node) are the C08 verdict.  The minimal scenarios of
 the three repaired defects (list in the keyspace at the snapshot threshold; snapshot + full restart; follower caught up by MsgSnap)
 run on every check and must pass."""
-from .. import core, clustersuite, snapgen
+from .. import core, clustersuite, readygen, snapgen
 
 LEVEL = "proof"
 KNOWN_HERE = ["member-url-lost-after-compaction"]
@@ -34,10 +42,17 @@ def run(R, ctx):
     # correspondence of the snapshot model (Snap.encode / Snap.decode) with memdb/snapshot.go, before the cluster scenarios
     snapgen.run_snapshot_suite(R, ctx, binary)
     f4 = clustersuite.fact_f4(R, broken_is_violation=False)
+    # the behavioural tie of F4: the real Ready loop of one node, every externalisation judged against the disk (fast: before the cluster runs)
+    rl = readygen.run_suite(R, ctx, binary, f4)
     main = clustersuite.run_cluster(R, ctx, "C08", binary, known, KNOWN_HERE) or []
+    if f4 is not None and not f4["unconditional"] and not rl["failing"]:
+        # the persist step became conditional and no scenario of this run showed an externalisation without its disk write
+        R.violation("F4-save-conditional", dict(kind="tie-broken", summary=clustersuite.F4D_SUMMARY % (f4["save_depth"], "see obligation F4d")),
+                    found_input=False)
     if f4 is not None and not (f4["exact"] and f4["persist_first"]):
-        # the hypothesis of the recovery theorems is gone; a failing input only if a cluster run also lost a write
+        # the hypothesis of the recovery theorems is gone; a failing input only if a cluster run also lost a write or a readyloop scenario failed
         lost = any(p.get("kind") in ("lost-write", "not-linearizable", "replicas-disagree") for r in main for p in (r.get("problems") or []))
+        lost = lost or rl["failing"] > 0
         R.violation("F4-persist-before-ack", dict(
             kind="tie-broken", order=f4["order"], expected=clustersuite.F4_EXPECTED,
             summary="fact F4 broken: the Ready arm of serveChannels runs %s; Recover.acked_survives / rep_save assume that an entry is sent, "
@@ -49,6 +64,8 @@ def run(R, ctx):
               "G (GetSnapshot bytes = Snap.encode, byte for byte), L (load into a fresh MemDb = Snap.decode . Snap.encode, full dump incl. rebuilt tree "
               "shapes) and LB lines (mutated snapshots: accept/refuse and resulting keyspace vs the strict model decoder); a G/L line is non-trivial "
               "when the keyspace is not empty, an LB line when the model decoder accepts. "
+              "readyloop: evaluations = clause evaluations (E1-E6), each against a fresh read of the node's directories; a scenario is non-trivial when "
+              "the node lived more than once and at least one of E2/E3/E4 was judged. "
               "cluster: a scenario is non-trivial when clients got acknowledgements AND at least one fault was injected; a repaired-defect "
               "scenario counts when it passes; evaluations = client commands issued (acknowledged + unknown outcome).")
     if ctx.broken and not R.violations:
@@ -57,6 +74,8 @@ def run(R, ctx):
 
 
 def replay(R, payload):
+    if payload.get("engine") == "readyloop":
+        return readygen.replay(R, payload)
     if payload.get("engine") == "cluster":
         return clustersuite.replay_cluster(R, payload)
     return core.generic_replay(R, payload)
